@@ -61,7 +61,7 @@ func init() {
 		NonTriv: func(w *l1World) bool { return w.succ["claim"] >= 2 }}
 	core.Register(&core.Scenario{ID: "C02", Level: "exploration", Run: runL1(c02), Components: l1Components, Assumptions: l1Assume,
 		Rule: "seeded histories of propose / delete / re-propose (cumulative trees carrying earlier leaves) and claims of the same withdrawal by several submitters against every output that contains it, same block and across blocks, with crash between FinalizeBlock and Commit and block replay; oracle: per (bridge, withdrawal) at most one successful finalisation, Claimed query true exactly for paid withdrawals, ledger equality; non-trivial = >=2 successful claims",
-		QuickRuns: 3000, QuickSecs: 75, ThoroughRuns: 50000, ThoroughSecs: 700,
+		QuickRuns: 2000, QuickSecs: 75, ThoroughRuns: 50000, ThoroughSecs: 700,
 		RequiredProbes: []string{"reject.claim.already-claimed"}})
 
 	c03 := &l1Profile{Prop: "C03", Blocks: [2]int{10, 50}, MaxTx: 8, Periods: []time.Duration{time.Second, 2 * time.Second, time.Hour}, Byz: 75,
